@@ -468,6 +468,29 @@ def _n25_trykey(st):
     return [_loc(copy.deepcopy(d), st), _loc(ast.If(test=test, body=[copy.deepcopy(b)], orelse=[]), st)]
 
 
+def _n25b_suppress(st):
+    """with contextlib.suppress(KeyError): x = d[k]; <flags set to constants>   ->   if k in d: x = d[k]; <flags>"""
+    if not (isinstance(st, ast.With) and len(st.items) == 1 and st.items[0].optional_vars is None and st.body):
+        return None
+    c = st.items[0].context_expr
+    if not (isinstance(c, ast.Call) and ast.unparse(c.func).split('.')[-1] == 'suppress' and len(c.args) == 1 and not c.keywords
+            and isinstance(c.args[0], ast.Name) and c.args[0].id == 'KeyError'):
+        return None
+    b = st.body[0]
+    if not (isinstance(b, ast.Assign) and len(b.targets) == 1 and isinstance(b.targets[0], ast.Name)
+            and isinstance(b.value, ast.Subscript) and isinstance(b.value.value, ast.Name)
+            and isinstance(b.value.slice, (ast.Constant, ast.Name))):
+        return None
+    if b.targets[0].id in _names(b.value):
+        return None
+    for r in st.body[1:]:
+        if not (isinstance(r, ast.Assign) and len(r.targets) == 1 and isinstance(r.targets[0], ast.Name)
+                and isinstance(r.value, (ast.Constant, ast.Name))):
+            return None
+    test = _loc(ast.Compare(left=copy.deepcopy(b.value.slice), ops=[ast.In()], comparators=[copy.deepcopy(b.value.value)]), st)
+    return [_loc(ast.If(test=test, body=[copy.deepcopy(x) for x in st.body], orelse=[]), st)]
+
+
 def _n26_trykey_update(st):
     if not (isinstance(st, ast.Try) and len(st.body) == 1 and len(st.handlers) == 1 and not st.orelse and not st.finalbody):
         return None
@@ -658,7 +681,7 @@ def _expr_helpers(tree, public_ok=None):
     return out
 
 
-def _stmt_helpers(tree, external, defs=None):
+def _stmt_helpers(tree, external, defs=None, foreign=False):
     """Module-level functions that are plain statement sequences (no value returned, no loop, not recursive),
     called only directly and only inside this module: N10 inlines them at their call statements.
     With `defs` (the nested function definitions of function `tree`): the same for local closures."""
@@ -692,8 +715,10 @@ def _stmt_helpers(tree, external, defs=None):
                 bad = True
         if bad:
             continue
-        if calls.get(st.name, 0) == 0 or refs.get(st.name, 0) != calls.get(st.name, 0):
+        if not foreign and (calls.get(st.name, 0) == 0 or refs.get(st.name, 0) != calls.get(st.name, 0)):
             continue
+        if foreign and refs.get(st.name, 0) != calls.get(st.name, 0):
+            continue            # handed around as a value somewhere in its own module
         out[st.name] = (st, copy.deepcopy(body))
     return out
 
@@ -716,13 +741,25 @@ def _closure_helpers(func):
     return _stmt_helpers(func, set(), defs)
 
 
-def _n10_inline_stmt(st, helpers, caller_locals, closure=False):
-    if not (isinstance(st, ast.Expr) and isinstance(st.value, ast.Call) and isinstance(st.value.func, ast.Name)):
+_N10_COUNTER = [0]
+
+
+def _n10_inline_stmt(st, helpers, caller_locals, closure=False, foreign=None, aliases=None):
+    if not (isinstance(st, ast.Expr) and isinstance(st.value, ast.Call)):
         return None
     c = st.value
-    if c.func.id not in helpers or (c.func.id in caller_locals and not closure):
+    qualify = None
+    if foreign and isinstance(c.func, ast.Attribute) and isinstance(c.func.value, ast.Name) and c.func.value.id in (aliases or {}) \
+            and c.func.value.id not in caller_locals and (aliases[c.func.value.id], c.func.attr) in foreign:
+        h, body, modnames = foreign[(aliases[c.func.value.id], c.func.attr)]
+        body = copy.deepcopy(body)
+        qualify = (c.func.value.id, modnames)
+        tag = c.func.attr
+    elif isinstance(c.func, ast.Name) and c.func.id in helpers and not (c.func.id in caller_locals and not closure):
+        h, body = helpers[c.func.id]
+        tag = c.func.id
+    else:
         return None
-    h, body = helpers[c.func.id]
     params = [a.arg for a in h.args.args]
     if c.keywords or len(c.args) != len(params) or any(isinstance(a, ast.Starred) for a in c.args):
         return None
@@ -742,6 +779,8 @@ def _n10_inline_stmt(st, helpers, caller_locals, closure=False):
                     counts[x.id] += 1
                 elif x.id not in assigned:
                     free.add(x.id)
+    if qualify is not None:
+        free -= set(qualify[1])
     if free & caller_locals and not closure:
         return None               # a module-level name of the helper is shadowed in the caller
     pre = []
@@ -750,10 +789,15 @@ def _n10_inline_stmt(st, helpers, caller_locals, closure=False):
         if _is_path(a) or isinstance(a, ast.Constant) or _simple_default(a):
             mapping[p_] = a
         else:
-            tmp = '%s__%s' % (p_, c.func.id)
+            _N10_COUNTER[0] += 1
+            tmp = '%s__%s_%d' % (p_, tag, _N10_COUNTER[0])       # one name per inlined call: a temporary, not a variable
             pre.append(_assign(ast.Name(id=tmp, ctx=ast.Store()), a, st))
             mapping[p_] = ast.Name(id=tmp, ctx=ast.Load())
-    ren = dict((nm, '%s__%s' % (nm, c.func.id)) for nm in assigned)
+    ren = dict((nm, '%s__%s' % (nm, tag)) for nm in assigned)
+    if qualify is not None:
+        for nm in qualify[1]:
+            if nm not in mapping:
+                mapping[nm] = ast.Attribute(value=ast.Name(id=qualify[0], ctx=ast.Load()), attr=nm, ctx=ast.Load())
 
     class _Ren(ast.NodeTransformer):
         def visit_Name(self, n):
@@ -1411,6 +1455,16 @@ def normalise(tree, ctx=None, mname='', aliases=None, enabled=None):
             stats['N20'] = fs.count
     if on('N8'):
         _ExprCanon().visit(tree)
+    if on('N28'):
+        # f(**dict(opts))  ->  f(**opts): the callee gets a fresh dictionary with the same entries either way
+        for c_ in ast.walk(tree):
+            if isinstance(c_, ast.Call):
+                for k_ in c_.keywords:
+                    if k_.arg is None and isinstance(k_.value, ast.Call) and isinstance(k_.value.func, ast.Name) \
+                            and k_.value.func.id == 'dict' and len(k_.value.args) == 1 and not k_.value.keywords \
+                            and isinstance(k_.value.args[0], ast.Name):
+                        k_.value = k_.value.args[0]
+                        bump('N28')
     keepf = ctx.get('keep_funcs')
     refs, calls = {}, {}
     for n in ast.walk(tree):
@@ -1454,13 +1508,15 @@ def normalise(tree, ctx=None, mname='', aliases=None, enabled=None):
     helpers = _expr_helpers(tree, public_ok) if on('N5') else {}
     foreign = ctx.get('xhelpers', {}) if on('N5x') else {}
     sigs = ctx.get('sigs', {}) if on('N14') else {}
-    shelpers = _stmt_helpers(tree, ctx.get('external', set())) if on('N10') else {}
+    shelpers = _stmt_helpers(tree, set()) if on('N10') else {}
+    xstmt = dict((k_, v_) for k_, v_ in ctx.get('xstmt', {}).items() if k_[0] != mname
+                 and (keepf is None or k_[1] not in keepf)) if on('N10') else {}
     for func in _functions(tree):
         for _round in range(6):
             changed = False
-            if shelpers and func.name not in shelpers:
+            if (shelpers or xstmt) and func.name not in shelpers:
                 loc_ = _locals_of(func)
-                if _block_rewrite(func, lambda s_: _n10_inline_stmt(s_, shelpers, loc_)):
+                if _block_rewrite(func, lambda s_: _n10_inline_stmt(s_, shelpers, loc_, False, xstmt, aliases)):
                     bump('N10')
                     changed = True
             if on('N10') and _round < 3:
@@ -1515,6 +1571,9 @@ def normalise(tree, ctx=None, mname='', aliases=None, enabled=None):
                 bump('N26')
                 changed = True
             if on('N25') and _block_rewrite(func, _n25_trykey):
+                bump('N25')
+                changed = True
+            if on('N25') and _block_rewrite(func, _n25b_suppress):
                 bump('N25')
                 changed = True
             if on('N21') and _block_rewrite(func, _n21_whiletrue):
@@ -1726,6 +1785,7 @@ def package_context(mods):
     import builtins
     sigs = {}
     xhelpers = {}
+    xstmt = {}
     for mname, (tree, aliases, classes) in mods.items():
         top = set()
         imported = set()
@@ -1763,19 +1823,35 @@ def package_context(mods):
             if any(n in imported or not hasattr(builtins, n) for n in rest):
                 continue
             xhelpers[(mname, name)] = (st, e, sorted(modnames))
+        for name, (st, body) in _stmt_helpers(tree, set(), None, True).items():
+            if ndefs.get(name) != 1 or mname in dynamic and not name.startswith('_'):
+                continue
+            params = set(x.arg for x in st.args.args)
+            assigned = set(x.id for b in body for x in ast.walk(b) if isinstance(x, ast.Name) and isinstance(x.ctx, (ast.Store, ast.Del)))
+            free = set(x.id for b in body for x in ast.walk(b) if isinstance(x, ast.Name)) - params - assigned
+            modnames = set(n for n in free if n in top)
+            rest = free - modnames
+            if any(n in imported or not hasattr(builtins, n) for n in rest):
+                continue
+            xstmt[(mname, name)] = (st, body, sorted(modnames))
     return {'pure': pure, 'rebound': rebound, 'external': external, 'dynamic': dynamic, 'sigs': sigs,
-            'xhelpers': xhelpers}
+            'xhelpers': xhelpers, 'xstmt': xstmt}
 
 
 # --------------------------------------------------------------------------- N18 import style
 
-def canonicalise_imports(tree, pkg, modules, own):
+def canonicalise_imports(tree, pkg, modules, own, homes=None):
     """Rewrite the module so that every package module is known under its own name and every function / constant of
-    another package module is reached through it.  Returns the number of names rewritten."""
+    another package module is reached through it.  Returns the number of names rewritten.
+    homes: {name: [modules]} where the checker's reference tree defines each top-level name; a name imported into the
+    module that used to define it (the definition moved, the import keeps the old name alive) stays a module-level name
+    here: `X = module.X`, uses untouched."""
     alias_map = {}      # local alias -> module
     direct = {}         # local name -> (module, original name)
+    reexport = []       # (local name, module, original name)
     keep = []
     changed = False
+    homes = homes or {}
     for st in tree.body:
         if isinstance(st, ast.ImportFrom):
             rel_pkg = (st.level >= 1 and not st.module) or (st.level == 0 and st.module == pkg)
@@ -1794,7 +1870,10 @@ def canonicalise_imports(tree, pkg, modules, own):
                 continue
             if sub is not None and sub != own and all(a.name != '*' for a in st.names):
                 for a in st.names:
-                    direct[a.asname or a.name] = (sub, a.name)
+                    if own in homes.get(a.asname or a.name, ()):
+                        reexport.append((a.asname or a.name, sub, a.name))
+                    else:
+                        direct[a.asname or a.name] = (sub, a.name)
                 changed = True
                 continue
         elif isinstance(st, ast.Import):
@@ -1808,7 +1887,7 @@ def canonicalise_imports(tree, pkg, modules, own):
         keep.append(st)
     if not changed:
         return 0
-    needed = set(alias_map.values()) | set(m for (m, _) in direct.values())
+    needed = set(alias_map.values()) | set(m for (m, _) in direct.values()) | set(m for (_, m, _) in reexport)
     # module-level bindings that would collide with a canonical module name: give up on that module
     top_bound = set()
     for st in keep:
@@ -1858,9 +1937,11 @@ def canonicalise_imports(tree, pkg, modules, own):
     while k < len(body) and ((isinstance(body[k], ast.Expr) and isinstance(body[k].value, ast.Constant)) or (
             isinstance(body[k], ast.ImportFrom) and body[k].module == '__future__')):
         k += 1
-    tree.body = body[:k] + [imp] + body[k:]
+    back = [ast.Assign(targets=[ast.Name(id=x, ctx=ast.Store())],
+                       value=ast.Attribute(value=ast.Name(id=m, ctx=ast.Load()), attr=y, ctx=ast.Load())) for (x, m, y) in reexport]
+    tree.body = body[:k] + [imp] + back + body[k:]
     ast.fix_missing_locations(tree)
-    return count[0]
+    return count[0] + len(back)
 
 
 # --------------------------------------------------------------------------- N11 named constants
@@ -1882,7 +1963,22 @@ def module_constants(tree):
             for nm in n.names:
                 counts[nm] = counts.get(nm, 0) + 2
     # any spelling: MAX_RANK, _K_word, default_label ... (dunder names are module metadata, not program constants)
-    return dict((k, v) for k, v in vals.items() if counts.get(k) == 1 and not (k.startswith('__') and k.endswith('__')))
+    out = dict((k, v) for k, v in vals.items() if counts.get(k) == 1 and not (k.startswith('__') and k.endswith('__')))
+    # members of an enumeration with literal values: `Kind.MEMBER.value` is that literal (key 'Kind.MEMBER')
+    for st in tree.body:
+        if isinstance(st, ast.ClassDef) and counts.get(st.name, 0) == 0 and st.bases and all(
+                ast.unparse(b).split('.')[-1] in ('Enum', 'IntEnum', 'StrEnum', 'str', 'int') for b in st.bases) and any(
+                ast.unparse(b).split('.')[-1] in ('Enum', 'IntEnum', 'StrEnum') for b in st.bases):
+            seen = {}
+            for sub in st.body:
+                if isinstance(sub, ast.Assign) and len(sub.targets) == 1 and isinstance(sub.targets[0], ast.Name):
+                    seen[sub.targets[0].id] = seen.get(sub.targets[0].id, 0) + 1
+            for sub in st.body:
+                if isinstance(sub, ast.Assign) and len(sub.targets) == 1 and isinstance(sub.targets[0], ast.Name) \
+                        and seen[sub.targets[0].id] == 1 and isinstance(sub.value, ast.Constant) \
+                        and isinstance(sub.value.value, (int, str)) and not sub.targets[0].id.startswith('_'):
+                    out['%s.%s' % (st.name, sub.targets[0].id)] = sub.value
+    return out
 
 
 class _Consts(ast.NodeTransformer):
@@ -1913,6 +2009,12 @@ class _Consts(ast.NodeTransformer):
         return n
 
     def visit_Attribute(self, n):
+        # Kind.MEMBER.value of an enumeration of this module
+        if isinstance(n.ctx, ast.Load) and n.attr == 'value' and isinstance(n.value, ast.Attribute) \
+                and isinstance(n.value.value, ast.Name) and self.scopes and not self._shadowed(n.value.value.id) \
+                and '%s.%s' % (n.value.value.id, n.value.attr) in self.own:
+            self.count += 1
+            return _loc(copy.deepcopy(self.own['%s.%s' % (n.value.value.id, n.value.attr)]), n)
         if isinstance(n.ctx, ast.Load) and isinstance(n.value, ast.Name) and n.value.id in self.aliases \
                 and not self._shadowed(n.value.id) and self.scopes:
             m = self.aliases[n.value.id]
